@@ -18,7 +18,16 @@ RULE = (
     'average, pos_label, vocabulary, k-list, container, batch split) x label arrays; '
     'retrieval = (k-list, input type) x ragged rankings; thresholded retrieval = '
     'thresholds x rankings with probabilities; stats/misc = (metric, options) x numeric '
-    'batches with NaNs / texts. Cases are drawn from random.Random(f(seed, chunk, index)). '
+    'batches with NaNs / texts. Input classes generated on purpose: classification data '
+    'sets of 150k-400k examples (clsbig, stored as sampling parameters and regenerated '
+    'vectorised); k-lists in any order and with repeated ks; rankings with empty y_pred / '
+    'y_true rows, in a batch with others and alone in a batch; probabilities equal to a '
+    'threshold handed over as python floats / float64 / float32; numeric data with a common '
+    'offset of 1e6-1e8 and a spread of 0.5-100; int32 / int64 containers with |x| > 46341; '
+    'all-negative and mixed-sign data for min/max; probabilities exactly 0.0 / 1.0 for the '
+    'categorical cross entropy. A mismatch is keyed (mechanism) by the input class of the '
+    'case and the position / metric it concerns, never by the value returned. '
+    'Cases are drawn from random.Random(f(seed, chunk, index)). '
     'All ~30 derived rates / 17 ranking metrics are compared per case. Non-trivial = at '
     'least 2 examples and 2 classes (rows) with non-zero denominators for precision, '
     'recall, specificity and NPV; zero-denominator comparisons are counted separately '
@@ -40,35 +49,71 @@ ASSUMPTIONS = [
     '(documented as ignored)',
     'binary labels and pos_label have one python type per case; when pos_label does not '
     'occur the function API must raise the documented ValueError (binary/binary only)',
-    'k-lists are ascending, distinct, positive; k_list is not combined with samples average',
+    'k-lists are positive, in any order, a k may be repeated; the result is positional, so '
+    'value i must belong to k_list[i] (a repeated k repeats its value); k_list is not '
+    'combined with samples average',
     'multi-batch accumulation is exercised only where the class index is stable (binary / '
     'indicator input or explicit vocabulary, no k_list); TopKRetrieval multi-batch only '
     'when every batch holds a ranking of >= max(k) items (per-batch k truncation is a C01 finding)',
-    'retrieval rows have >= 1 true label and >= 1 prediction, items distinct per row; "at k" '
+    'retrieval rows have items distinct per row; a row may have no prediction or no true '
+    'label (never both): its 0 / 0 rates are 0 by the zero-denominator convention of '
+    'math_utils.safe_divide, for false_discovery_rate / miss_rate of such a row both 0 '
+    '(safe fp / (tp + fp)) and 1 (1 - precision) are accepted; a two-batch run is compared '
+    'only if every batch holds a ranking of >= max(k) items or nothing but empty rankings; "at k" '
     'means on y_pred[:k], precision@k = tp / len(y_pred[:k]); AP@k divides by '
     'min(k, len(y_true)) (the repository test literals), k=None by len(y_true)',
     'retrieval input_type=multiclass uses single-character string labels (as the unit '
     'tests); 2% of cases use the other documented multiclass encodings (ints, words) '
     'and are keyed retrieval-multiclass-labels-iterated',
-    'thresholded retrieval: probabilities and thresholds on the grid i/16 in [0, 1] '
-    '(exact in float32, which the library uses internally); metric@t only at listed thresholds',
-    'Mean / MeanAndVariance / Var batches are non-empty; |values| <= 1e6; NaN is the only '
-    'non-finite value; tolerance atol scales with max|x| (mean, total) or max|x|^2 (var)',
+    'thresholded retrieval: probabilities and thresholds on the grid i/16 in [0, 1] (exact '
+    'in float32) or on a decimal grid (i/5, i/10, i/20, i/100: not representable) where half '
+    'of the probabilities equal a threshold; probability rows are python lists, float64 or '
+    'float32 arrays. "prob > t" is accepted under two readings, exact comparison of the '
+    'given numbers or comparison after rounding both to float32 (thresholds are kept in '
+    'float32), but the same comparison must decide "predicted positive" and "true positive"; '
+    'metric@t only at listed thresholds, within 2e-6 when a threshold is not a float32 '
+    '(interpolation on the float32 threshold axis); reported thresholds within rtol 1e-7',
+    'Mean / MeanAndVariance / Var batches are non-empty; |values| <= 1.1e8; NaN is the only '
+    'non-finite value; float64 arrays, or int32 / int64 arrays without NaN; tolerance atol = '
+    '1e-12 x scale with scale = max|x| (mean, total), spread^2 + 2e-3 max|x| spread (var: ~9 '
+    'eps max|x| spread is the conditioning a stable algorithm cannot beat; a one-pass '
+    'E[x^2]-mean^2 is off by eps max|x|^2), stddev tolerance derived from the var tolerance',
     'when every value accumulated so far is NaN, Mean/MeanAndVariance keep their scalar '
     'initial state (nan, count 0) for 2-D input; same values, scalar shape - accepted and '
     'recorded as an observation, not compared',
-    'MinMaxAndCount is fed non-negative values (max starts at 0), axis None or 0, '
-    'batch_score_fn None or len',
+    'MinMaxAndCount: values of any sign (all >= 0, all < 0, mixed; per-column signs for 2-D '
+    'batches), min / max are the smallest / largest value that occurred; axis None, 0 '
+    '(column-wise on 2-D batches) or 0 / -1 on 1-D batches; batch_score_fn None, len or '
+    'np.sum (score functions only with axis None); add() and merge() of per-batch accumulators',
     'Histogram / CalibrationHistogram: explicit range with int bins (or explicit edges); '
     'bins is a power of two with dyadic range, or odd with a power-of-two span, so that '
     'values (dyadic grid) meet an edge only where the edge is exact; no NaNs',
-    'R2Tjur: y_true in {0, 1}, predictions on i/64 in [0, 1]; RRegression / '
-    'SymmetricPredictionDifference: values on the grid i/8, |x| <= 8 (sums exact in '
-    'double, so the one-pass formulas do not cancel catastrophically); a term with '
-    'x + y == 0 contributes 0 to the symmetric prediction difference (unit-test convention)',
+    'R2Tjur: y_true in {0, 1}, predictions on i/64 in [0, 1]; SymmetricPredictionDifference: '
+    'values on the grid i/8, |x| <= 8; a term with x + y == 0 contributes 0 to the symmetric '
+    'prediction difference (unit-test convention)',
+    'RRegression: (a) grid i/8, |x| <= 8, constant columns allowed (NaN); (b) features / '
+    'target with a common offset 1e6-1e8 (either sign) and spread 0.5-100, integer-valued '
+    'half of the time, every column has spread >= 0.25 (no constant column: 0 / 0 is not '
+    'float-stable there); (c) integer-valued data up to 2e6 handed over as int32 / int64 '
+    'arrays (x, in 30% also y) and as plain python ints. Tolerance atol = 1e-12 (1 + 0.015 '
+    'cond), cond = max|v| sqrt(2n) / spread (>= max|v| / rms deviation), i.e. ~64 eps cond: '
+    'what centring-first costs in float64; keys: int32 element-wise overflow when an int32 '
+    'value exceeds 46340 (or |x y| >= 2^31), int64 product overflow when x and y are both '
+    'integers and sum_xx sum_yy (reflective) or sum_x^2, sum_y^2, sum_x sum_y (Pearson) '
+    'exceed 2^63, cancellation when cond > 1e4',
+    'clsbig: binary (int / bool labels), one-hot indicator and multiclass-with-vocabulary '
+    'data of 150k-400k examples, average binary / micro / macro, accumulated in 1 / 4 / 16 '
+    'batches; every derived rate except samples-accuracy; MCC is requested on its own so that '
+    'its failure cannot hide the other rates; key mcc-int64-overflow-large-counts iff '
+    '(tp+fp)(tp+fn)(tn+fp)(tn+fn), tp tn or fp fn of a class matrix exceeds 2^63-1',
     'texts are printable ASCII without tabs/newlines; n-gram cleaning keeps [a-zA-Z ] and '
     'lower-cases; pattern occurrences may overlap (unit-test literal)',
     'cross entropy: y_true in {0, 1} with at least one 1, predictions i/64 in (0, 1); '
+    'categorical cross entropy additionally with probabilities in the documented closed '
+    'interval [0, 1] (exact 0.0 / 1.0 entries, one-hot predictions, sum > 0) under the '
+    '0 * log(0) = 0 convention: a class that is not true contributes nothing, a true class '
+    'with probability 0 gives +inf; binary_cross_entropy documents the open interval (0, 1) '
+    'and is not fed 0.0 / 1.0; '
     'topk_accurate: weighted scores are distinct, 1 <= k <= len',
     'float comparison: |got - want| <= 1e-12 * scale + 1e-9 * |want|; NaN equals NaN',
     'metrics/text.py and signals/text.py are not importable here and are not covered',
@@ -85,16 +130,23 @@ REQUIRED = [
     'misc_rreg_cases', 'misc_spd_cases', 'misc_text_cases', 'misc_mathutils_cases',
     'misc_signal_cases', 'misc_value_checks', 'retr_multibatch_checks',
     'thr_multibatch_checks', 'stats_accumulator_checks', 'misc_accumulator_checks',
+    # input classes that must have been generated (see RULE)
+    'clsbig_cases', 'clsbig_int64_product_cases', 'clsbig_mcc_checks', 'clsbig_value_checks',
+    'clsbig_accumulator_checks', 'clsbig_count_checks',
+    'cls_unordered_klist_cases', 'retr_unordered_klist_cases', 'retr_empty_row_cases',
+    'retr_empty_batch_checks', 'thr_tie_cases', 'stats_minmax_negative_max_cases',
+    'stats_int_dtype_cases', 'misc_rreg_offset_cases', 'misc_rreg_int32_cases',
+    'misc_xent_closed_interval_cases', 'misc_xent_zero_probability_cases',
 ]
 EXHAUSTIVE = {'quick': False, 'thorough': False}
 CHUNK_TIMEOUT_S = {'quick': 240, 'thorough': 3000}
 
 # (family, chunks, cases per chunk)
 _PLAN = {
-    'quick': [('cls', 8, 400), ('retr', 4, 400), ('thr', 1, 400),
+    'quick': [('clsbig', 3, 2), ('cls', 8, 400), ('retr', 4, 400), ('thr', 1, 400),
               ('stats', 4, 350), ('misc', 3, 400)],
-    'thorough': [('cls', 50, 4000), ('retr', 26, 4000), ('thr', 6, 4000),
-                 ('stats', 24, 4000), ('misc', 19, 4000)],
+    'thorough': [('clsbig', 8, 8), ('cls', 50, 4000), ('retr', 26, 4000),
+                 ('thr', 6, 4000), ('stats', 24, 4000), ('misc', 19, 4000)],
 }
 
 
@@ -109,6 +161,9 @@ def plan(tier, seed):
 
 def _dispatch(ctx, case):
   fam = case['family']
+  if fam == 'clsbig':
+    from vlib.oracles import c07_check_large
+    return c07_check_large.check(ctx, case)
   if fam == 'cls':
     from vlib.oracles import c07_check_cls
     return c07_check_cls.check(ctx, case)
